@@ -57,6 +57,11 @@ func newLiveNet(seed int64, n int, tune func(c *config.Config)) (*liveNet, error
 		conf.JoinTimeout = 2 * time.Second
 		conf.CacheSize = 20000
 		conf.Moniker = l.Peer.Moniker
+		// soak and hostile-input runs are not about self-suspension (C17 has its
+		// own live cases): with three validators, one node pausing for a few
+		// seconds on a loaded machine lets the two others pile up undetermined
+		// events and every node suspends itself, which only fires the watchdog
+		conf.SuspendLimit = 1000000
 		if tune != nil {
 			tune(conf)
 		}
@@ -154,7 +159,30 @@ func hostileStreams(rng *rand.Rand, g *hostileGen, count int) [][]byte {
 func runC08TCP(cs CaseSpec) *CaseResult {
 	res := newResult(cs)
 	rng := cs.rng("c08tcp")
-	ln, err := newLiveNet(cs.Seed*31+int64(cs.Index), 3, nil)
+	// Under the race detector (which also turns on checkptr) nodes are 10-20x
+	// slower: slower heartbeat, four validators (one slow node must not stall
+	// the others), and the answers that depend on TCP timeouts or on a
+	// wall-clock progress watchdog are inconclusive there. What remains decisive
+	// in that variant is the process dying (crash handler) and a delivered
+	// block changing.
+	underRace := cs.Str("race", "") == "1"
+	nNodes := 3
+	var tune func(c *config.Config)
+	if underRace {
+		nNodes = 4
+		tune = func(c *config.Config) {
+			c.HeartbeatTimeout = 100 * time.Millisecond
+			c.SlowHeartbeatTimeout = 500 * time.Millisecond
+		}
+	}
+	timing := func(sig, msg string) {
+		if underRace {
+			res.inconclusive("under the race detector a timing-dependent probe failed (" + sig + "): " + msg)
+			return
+		}
+		res.violate("C08", sig, msg, nil)
+	}
+	ln, err := newLiveNet(cs.Seed*31+int64(cs.Index), nNodes, tune)
 	if err != nil {
 		res.inconclusive("cannot create live network: " + err.Error())
 		return res
@@ -165,7 +193,7 @@ func runC08TCP(cs CaseSpec) *CaseResult {
 	feed := func(i int) {
 		if i%4 == 0 {
 			txc++
-			ln.Nodes[txc%3].Proxy.SubmitTx([]byte(fmt.Sprintf("live-tx-%d", txc)))
+			ln.Nodes[txc%nNodes].Proxy.SubmitTx([]byte(fmt.Sprintf("live-tx-%d", txc)))
 		}
 	}
 	if !ln.waitBlocks(2, 60*time.Second, feed) {
@@ -191,7 +219,7 @@ func runC08TCP(cs CaseSpec) *CaseResult {
 		res.count("hostile_tcp_streams", 1)
 		conn, err := net.DialTimeout("tcp", addr, 2*time.Second)
 		if err != nil {
-			res.violate("C08", "C08:tcp-port-stops-accepting", fmt.Sprintf("after %d hostile streams the gossip port no longer accepts connections: %v", i, err), nil)
+			timing("C08:tcp-port-stops-accepting", fmt.Sprintf("after %d hostile streams the gossip port no longer accepts connections: %v", i, err))
 			return res
 		}
 		conn.SetDeadline(time.Now().Add(300 * time.Millisecond))
@@ -205,8 +233,8 @@ func runC08TCP(cs CaseSpec) *CaseResult {
 			err := ln.Nodes[1].Trans.Sync(addr, &bnet.SyncRequest{FromID: ln.Nodes[1].Peer.ID(), Known: map[uint32]int{}, SyncLimit: 10}, &resp)
 			res.count("liveness_probes_after_hostile_input", 1)
 			if err != nil {
-				res.violate("C08", "C08:valid-exchange-fails-after-hostile-input",
-					fmt.Sprintf("after %d hostile TCP streams a valid SyncRequest is no longer answered: %v", i+1, err), nil)
+				timing("C08:valid-exchange-fails-after-hostile-input",
+					fmt.Sprintf("after %d hostile TCP streams a valid SyncRequest is no longer answered: %v", i+1, err))
 				return res
 			}
 		}
@@ -221,7 +249,7 @@ func runC08TCP(cs CaseSpec) *CaseResult {
 	// progress: new transactions still commit
 	have := len(victim.App.DeliveredCopy())
 	if !ln.waitBlocks(have+1, 60*time.Second, feed) {
-		res.violate("C08", "C08:node-cannot-make-progress-after-hostile-input", "after the hostile TCP streams the network no longer commits new transactions within the watchdog", nil)
+		timing("C08:node-cannot-make-progress-after-hostile-input", "after the hostile TCP streams the network no longer commits new transactions within the watchdog")
 		return res
 	}
 	res.count("progress_probes_passed", 1)
